@@ -53,13 +53,17 @@ def identLoop (E : Env) (st : St) : Nat → Nat → Nat → Nat × Nat
 def lookupKw (tbl : List (Bytes × Nat)) (id : Bytes) : Option Nat :=
   (tbl.find? (fun kv => kv.1 == id)).map (·.2)
 
+/-- the two keyword switches of `lexIdentifierOrKeyword` -/
+def identType (E : Env) (id : Bytes) : Nat :=
+  match lookupKw goKeywords id with
+  | some t => t
+  | none => if E.tmpl then (lookupKw templateKeywords id).getD tokenIdentifier else tokenIdentifier
+
 /-- `l.lexIdentifierOrKeyword(s)`: returns the state, the token type and the identifier text -/
 def lexIdent (E : Env) (st : St) (s : Nat) : Except Fault (St × Nat × Bytes) :=
   let (p, cols) := identLoop E st (srcLen E st + 1) s 1
   let id := (E.text.drop st.base).take p     -- `string(l.src[0:p])`, bounds checked by `emit`
-  let typ := match lookupKw goKeywords id with
-    | some t => t
-    | none => if E.tmpl then (lookupKw templateKeywords id).getD tokenIdentifier else tokenIdentifier
+  let typ := identType E id
   do
     let st ← emit E st typ p
     pure (addCol st cols, typ, id)
@@ -102,47 +106,53 @@ def numExp (E : Env) (st : St) (s : NumSt) : Except Fault NumOut := do
       pure (.cont { s with exponent := 0x70, p })
   else pure (.cont s)
 
+/-- `switch base { … }`: the class of the digit `c` -/
+def numDigit (c : UInt8) (s : NumSt) : NumOut :=
+  if s.base = 10 then (if !isDecDigit c then .brk s else .cont s)
+  else if s.base = 16 then
+    (if (s.exponent = 0 ∧ !isHexDigit c) ∨ (s.exponent ≠ 0 ∧ !isDecDigit c) then
+      (if s.dot ∧ s.exponent = 0 then .err .hexMantissaP else .brk s)
+     else .cont s)
+  else if s.base = 8 then
+    (if !isOctDigit c then
+      (if (c = 0x38 ∨ c = 0x39) ∧ !s.is0o then .cont { s with base := 10 }
+       else if isDecDigit c then .err .invalidDigit
+       else .brk s)
+     else .cont s)
+  else if s.base = 2 then
+    (if !isBinDigit c then (if isDecDigit c then .err .invalidDigit else .brk s) else .cont s)
+  else .cont s
+
+/-- `case '.'` after a digit (`l.src[p] == '.'`) and the exponent switch that follows it -/
+def numPoint (E : Env) (st : St) (s : NumSt) : Except Fault NumOut :=
+  if s.dot ∨ s.exponent ≠ 0 then pure (.brk s)
+  else
+    let s := if s.base = 8 ∧ !s.is0o then { s with base := 10 } else s
+    if s.base < 10 then pure (.err .radixPoint)
+    else
+      let s := { s with dot := true, p := s.p + 1 }
+      if s.p = srcLen E st then pure (.brk s) else numExp E st s
+
+/-- what follows a digit (`s.p` already incremented): `_`, `.`, exponent -/
+def numAfter (E : Env) (st : St) (s : NumSt) : Except Fault NumOut :=
+  if s.p < srcLen E st then do
+    let d ← srcAt E st s.p
+    if d = 0x5f then   -- '_'
+      let s := { s with p := s.p + 1 }
+      match peek E st s.p with
+      | some x => if !isHexDigit x then pure (.brk s) else pure (.cont s)
+      | none => pure (.cont s)
+    else if d = 0x2e then numPoint E st s
+    else numExp E st s
+  else pure (.cont s)
+
 /-- one iteration of the DIGITS loop, entered with `p < len(l.src)` -/
 def numStep (E : Env) (st : St) (s : NumSt) : Except Fault NumOut := do
   let c ← srcAt E st s.p
-  -- switch base
-  let r : NumOut :=
-    if s.base = 10 then (if !isDecDigit c then .brk s else .cont s)
-    else if s.base = 16 then
-      (if (s.exponent = 0 ∧ !isHexDigit c) ∨ (s.exponent ≠ 0 ∧ !isDecDigit c) then
-        (if s.dot ∧ s.exponent = 0 then .err .hexMantissaP else .brk s)
-       else .cont s)
-    else if s.base = 8 then
-      (if !isOctDigit c then
-        (if (c = 0x38 ∨ c = 0x39) ∧ !s.is0o then .cont { s with base := 10 }
-         else if isDecDigit c then .err .invalidDigit
-         else .brk s)
-       else .cont s)
-    else if s.base = 2 then
-      (if !isBinDigit c then (if isDecDigit c then .err .invalidDigit else .brk s) else .cont s)
-    else .cont s
-  match r with
+  match numDigit c s with
   | .err k => pure (.err k)
   | .brk s => pure (.brk s)
-  | .cont s =>
-    let s := { s with p := s.p + 1 }
-    if s.p < srcLen E st then
-      let d ← srcAt E st s.p
-      if d = 0x5f then   -- '_'
-        let s := { s with p := s.p + 1 }
-        match peek E st s.p with
-        | some x => if !isHexDigit x then pure (.brk s) else pure (.cont s)
-        | none => pure (.cont s)
-      else if d = 0x2e then   -- '.'
-        if s.dot ∨ s.exponent ≠ 0 then pure (.brk s)
-        else
-          let s := if s.base = 8 ∧ !s.is0o then { s with base := 10 } else s
-          if s.base < 10 then pure (.err .radixPoint)
-          else
-            let s := { s with dot := true, p := s.p + 1 }
-            if s.p = srcLen E st then pure (.brk s) else numExp E st s
-      else numExp E st s
-    else pure (.cont s)
+  | .cont s => numAfter E st { s with p := s.p + 1 }
 
 def numLoop (E : Env) (st : St) : Nat → NumSt → Except Fault (NumSt ⊕ ErrKind)
   | 0, _ => .error .other
@@ -157,70 +167,75 @@ def numLoop (E : Env) (st : St) : Nat → NumSt → Except Fault (NumSt ⊕ ErrK
 /-- `for _, c := range l.src[1:p] { if c == '8' || c == '9' … }` -/
 def has89 (s : Bytes) : Bool := s.any fun c => c == 0x38 || c == 0x39
 
+/-- the `0x`, `0o`, `0b`, `0_` prefix of `lexNumber` (`c0` is `l.src[0]`) -/
+def numPrefix (E : Env) (st : St) (c0 : UInt8) : Except Fault (NumSt ⊕ ErrKind) :=
+  if c0 = 0x30 ∧ srcLen E st > 1 then do
+    let c1 ← srcAt E st 1
+    let s : NumSt :=
+      if c1 = 0x78 ∨ c1 = 0x58 then { p := 2, base := 16, dot := false, exponent := 0, is0o := false }
+      else if c1 = 0x6f ∨ c1 = 0x4f then { p := 2, base := 8, dot := false, exponent := 0, is0o := true }
+      else if c1 = 0x5f ∨ isDecDigit c1 then { p := 1, base := 8, dot := false, exponent := 0, is0o := false }
+      else if c1 = 0x62 ∨ c1 = 0x42 then { p := 2, base := 2, dot := false, exponent := 0, is0o := false }
+      else { p := 0, base := 10, dot := false, exponent := 0, is0o := false }
+    if peekIs E st s.p 0x5f then
+      match peek E st (s.p + 1) with
+      | some x => if !isHexDigit x then pure (.inr .underscoreSep) else pure (.inl { s with p := s.p + 1 })
+      | none => pure (.inl { s with p := s.p + 1 })
+    else pure (.inl s)
+  else pure (.inl { p := 0, base := 10, dot := false, exponent := 0, is0o := false })
+
+/-- the leading `.` of `lexNumber` -/
+def numDot (E : Env) (st : St) (s : NumSt) : NumSt ⊕ ErrKind :=
+  if peekIs E st s.p 0x2e then
+    let s := if s.base = 8 ∧ !s.is0o then { s with base := 10 } else s
+    if s.base < 10 then .inr .radixPoint else .inl { s with dot := true, p := s.p + 1 }
+  else .inl s
+
+/-- the `switch l.src[p-1]` after the DIGITS loop -/
+def numLastCheck (last : UInt8) (s : NumSt) : Option ErrKind :=
+  if last = 0x78 ∨ last = 0x58 ∨ last = 0x6f ∨ last = 0x4f ∨ last = 0x62 ∨ last = 0x42 then
+    (if s.p = 2 then some .noDigits else none)
+  else if last = 0x2e then (if s.p = 3 ∧ s.base = 16 then some .noDigits else none)
+  else if last = 0x5f then some .underscoreSep
+  else if last = 0x65 ∨ last = 0x45 then (if s.base ≠ 16 then some .expNoDigits else none)
+  else if last = 0x70 ∨ last = 0x50 ∨ last = 0x2b ∨ last = 0x2d then some .expNoDigits
+  else none
+
+/-- what `lexNumber` does after the DIGITS loop -/
+def numFinish (E : Env) (st : St) (c0 : UInt8) (s : NumSt) : R := do
+  if peekIs E st s.p 0x5f then fail st .underscoreSep
+  else
+    let last ← srcAtPred E st s.p
+    match numLastCheck last s with
+    | some k => fail st k
+    | none =>
+      if s.base = 16 ∧ s.dot ∧ s.exponent ≠ 0x70 then fail st .hexMantissaP
+      else if peekIs E st s.p 0x69 then
+        let st ← emit E st tokenImaginary (s.p + 1)
+        pure (addCol st (s.p + 1), none)
+      else
+        let bad ← (if s.p > 0 ∧ s.base = 10 ∧ c0 = 0x30 ∧ !s.dot ∧ s.exponent = 0 then do
+            let body ← sliceOf (E.text.drop st.base) 1 s.p      -- `l.src[1:p]`
+            pure (has89 body)
+          else pure false : Except Fault Bool)
+        if bad then fail st .invalidDigit
+        else
+          let typ := if s.dot ∨ s.exponent ≠ 0 then tokenFloat else tokenInt
+          let st ← emit E st typ s.p
+          pure (addCol st s.p, none)
+
 /-- `l.lexNumber()` -/
 def lexNumber (E : Env) (st : St) : R := do
   let c0 ← srcAt E st 0
-  -- prefix
-  let pre : Except Fault (NumSt ⊕ ErrKind) :=
-    if c0 = 0x30 ∧ srcLen E st > 1 then do
-      let c1 ← srcAt E st 1
-      let s : NumSt :=
-        if c1 = 0x78 ∨ c1 = 0x58 then { p := 2, base := 16, dot := false, exponent := 0, is0o := false }
-        else if c1 = 0x6f ∨ c1 = 0x4f then { p := 2, base := 8, dot := false, exponent := 0, is0o := true }
-        else if c1 = 0x5f ∨ isDecDigit c1 then { p := 1, base := 8, dot := false, exponent := 0, is0o := false }
-        else if c1 = 0x62 ∨ c1 = 0x42 then { p := 2, base := 2, dot := false, exponent := 0, is0o := false }
-        else { p := 0, base := 10, dot := false, exponent := 0, is0o := false }
-      if peekIs E st s.p 0x5f then
-        match peek E st (s.p + 1) with
-        | some x => if !isHexDigit x then pure (.inr .underscoreSep) else pure (.inl { s with p := s.p + 1 })
-        | none => pure (.inl { s with p := s.p + 1 })
-      else pure (.inl s)
-    else pure (.inl { p := 0, base := 10, dot := false, exponent := 0, is0o := false })
-  match ← pre with
+  match ← numPrefix E st c0 with
   | .inr k => fail st k
   | .inl s =>
-    -- leading '.'
-    let s1 : NumSt ⊕ ErrKind :=
-      if peekIs E st s.p 0x2e then
-        let s := if s.base = 8 ∧ !s.is0o then { s with base := 10 } else s
-        if s.base < 10 then .inr .radixPoint else .inl { s with dot := true, p := s.p + 1 }
-      else .inl s
-    match s1 with
+    match numDot E st s with
     | .inr k => fail st k
     | .inl s =>
       match ← numLoop E st (srcLen E st + 2) s with
       | .inr k => fail st k
-      | .inl s =>
-        if peekIs E st s.p 0x5f then fail st .underscoreSep
-        else
-          let last ← srcAtPred E st s.p
-          let chk : Option ErrKind :=
-            if last = 0x78 ∨ last = 0x58 ∨ last = 0x6f ∨ last = 0x4f ∨ last = 0x62 ∨ last = 0x42 then
-              (if s.p = 2 then some .noDigits else none)
-            else if last = 0x2e then (if s.p = 3 ∧ s.base = 16 then some .noDigits else none)
-            else if last = 0x5f then some .underscoreSep
-            else if last = 0x65 ∨ last = 0x45 then (if s.base ≠ 16 then some .expNoDigits else none)
-            else if last = 0x70 ∨ last = 0x50 ∨ last = 0x2b ∨ last = 0x2d then some .expNoDigits
-            else none
-          match chk with
-          | some k => fail st k
-          | none =>
-            if s.base = 16 ∧ s.dot ∧ s.exponent ≠ 0x70 then fail st .hexMantissaP
-            else
-              let imaginary := peekIs E st s.p 0x69
-              if imaginary then
-                let st ← emit E st tokenImaginary (s.p + 1)
-                pure (addCol st (s.p + 1), none)
-              else
-                let bad ← (if s.p > 0 ∧ s.base = 10 ∧ c0 = 0x30 ∧ !s.dot ∧ s.exponent = 0 then do
-                    let body ← sliceOf (E.text.drop st.base) 1 s.p      -- `l.src[1:p]`
-                    pure (has89 body)
-                  else pure false : Except Fault Bool)
-                if bad then fail st .invalidDigit
-                else
-                  let typ := if s.dot ∨ s.exponent ≠ 0 then tokenFloat else tokenInt
-                  let st ← emit E st typ s.p
-                  pure (addCol st s.p, none)
+      | .inl s => numFinish E st c0 s
 
 /-! ## interpreted strings -/
 
@@ -239,51 +254,62 @@ def hexRun (E : Env) (st : St) : Nat → Nat → Nat → Except Fault (Option Na
     | some v => hexRun E st n (q + 1) (acc * 16 + v)
     | none => pure none
 
+/-- `case 'u', 'U'` of the escape switch (`e` is `l.src[p+1]`) -/
+def strEscU (E : Env) (st : St) (p cols : Nat) (e : UInt8) : Except Fault StrOut := do
+  let n := if e = 0x55 then 8 else 4
+  if p + 1 + n ≥ srcLen E st then pure (.err .stringNotTerminated none)
+  else
+    match ← hexRun E st n (p + 2) 0 with
+    | none => pure (.err .hexEscapeChar (some (p, cols)))
+    | some r =>
+      if badCodePoint r then pure (.err .invalidCodePoint (some (p, cols)))
+      else pure (.cont (p + 2 + n) (cols + 2 + n))
+
+/-- `case 'x'`: `for i := range 2 { if p+2+i == len … ; if !isHexDigit(l.src[p+2+i]) … }` -/
+def strEscX (E : Env) (st : St) (p cols : Nat) : Except Fault StrOut := do
+  if p + 2 = srcLen E st then pure (.err .stringNotTerminated (some (p, cols)))
+  else
+    let h0 ← srcAt E st (p + 2)
+    if !isHexDigit h0 then pure (.err .hexEscapeChar (some (p, cols)))
+    else if p + 3 = srcLen E st then pure (.err .stringNotTerminated (some (p, cols)))
+    else
+      let h1 ← srcAt E st (p + 3)
+      if !isHexDigit h1 then pure (.err .hexEscapeChar (some (p, cols)))
+      else pure (.cont (p + 4) (cols + 4))
+
+/-- `case '0', …, '7'` -/
+def strEscOct (E : Env) (st : St) (p cols : Nat) (e : UInt8) : Except Fault StrOut := do
+  if p + 2 = srcLen E st then pure (.err .stringNotTerminated (some (p, cols)))
+  else
+    let o0 ← srcAt E st (p + 2)
+    if o0 < 0x30 ∨ o0 > 0x37 then pure (.err .octEscapeChar (some (p, cols)))
+    else if p + 3 = srcLen E st then pure (.err .stringNotTerminated (some (p, cols)))
+    else
+      let o1 ← srcAt E st (p + 3)
+      if o1 < 0x30 ∨ o1 > 0x37 then pure (.err .octEscapeChar (some (p, cols)))
+      else
+        let r := ((e.toNat - 0x30) * 8 + (o0.toNat - 0x30)) * 8 + (o1.toNat - 0x30)
+        if r > 255 then pure (.err .octTooBig (some (p, cols)))
+        else pure (.cont (p + 4) (cols + 4))
+
+/-- `case '\\'` of the string loop -/
+def strEscape (E : Env) (st : St) (p cols : Nat) : Except Fault StrOut := do
+  if p + 1 = srcLen E st then pure (.err .stringNotTerminated none)
+  else
+    let e ← srcAt E st (p + 1)
+    if e = 0x75 ∨ e = 0x55 then strEscU E st p cols e
+    else if isSimpleEscape e 0x22 then pure (.cont (p + 2) (cols + 2))
+    else if e = 0x78 then strEscX E st p cols
+    else if 0x30 ≤ e ∧ e ≤ 0x37 then strEscOct E st p cols e
+    else pure (.err .unknownEscape (some (p, cols)))
+
 /-- one iteration of the loop of `lexInterpretedString` -/
 def strStep (E : Env) (st : St) (p cols : Nat) : Except Fault StrOut := do
   if p = srcLen E st then pure (.err .stringNotTerminated none)
   else
     let c ← srcAt E st p
     if c = 0x22 then pure (.done p cols)
-    else if c = 0x5c then
-      if p + 1 = srcLen E st then pure (.err .stringNotTerminated none)
-      else
-        let e ← srcAt E st (p + 1)
-        if e = 0x75 ∨ e = 0x55 then
-          let n := if e = 0x55 then 8 else 4
-          if p + 1 + n ≥ srcLen E st then pure (.err .stringNotTerminated none)
-          else
-            match ← hexRun E st n (p + 2) 0 with
-            | none => pure (.err .hexEscapeChar (some (p, cols)))
-            | some r =>
-              if badCodePoint r then pure (.err .invalidCodePoint (some (p, cols)))
-              else pure (.cont (p + 2 + n) (cols + 2 + n))
-        else if isSimpleEscape e 0x22 then pure (.cont (p + 2) (cols + 2))
-        else if e = 0x78 then
-          -- for i := range 2 { if p+2+i == len … ; if !isHexDigit(l.src[p+2+i]) … }
-          if p + 2 = srcLen E st then pure (.err .stringNotTerminated (some (p, cols)))
-          else
-            let h0 ← srcAt E st (p + 2)
-            if !isHexDigit h0 then pure (.err .hexEscapeChar (some (p, cols)))
-            else if p + 3 = srcLen E st then pure (.err .stringNotTerminated (some (p, cols)))
-            else
-              let h1 ← srcAt E st (p + 3)
-              if !isHexDigit h1 then pure (.err .hexEscapeChar (some (p, cols)))
-              else pure (.cont (p + 4) (cols + 4))
-        else if 0x30 ≤ e ∧ e ≤ 0x37 then
-          if p + 2 = srcLen E st then pure (.err .stringNotTerminated (some (p, cols)))
-          else
-            let o0 ← srcAt E st (p + 2)
-            if o0 < 0x30 ∨ o0 > 0x37 then pure (.err .octEscapeChar (some (p, cols)))
-            else if p + 3 = srcLen E st then pure (.err .stringNotTerminated (some (p, cols)))
-            else
-              let o1 ← srcAt E st (p + 3)
-              if o1 < 0x30 ∨ o1 > 0x37 then pure (.err .octEscapeChar (some (p, cols)))
-              else
-                let r := ((e.toNat - 0x30) * 8 + (o0.toNat - 0x30)) * 8 + (o1.toNat - 0x30)
-                if r > 255 then pure (.err .octTooBig (some (p, cols)))
-                else pure (.cont (p + 4) (cols + 4))
-        else pure (.err .unknownEscape (some (p, cols)))
+    else if c = 0x5c then strEscape E st p cols
     else if c = 0x0a then pure (.err .newlineInString (some (p, cols)))
     else
       let (r, s) := decodeRune (E.text.drop (st.base + p))
@@ -348,56 +374,61 @@ def lexRawString (E : Env) (st : St) : R := do
 
 /-! ## rune literals -/
 
+/-- the `case '\\'` of `lexRuneLiteral` (`n` is `len(l.src)`, at least 2): `(p, columns before
+the closing quote)` or an error -/
+def runeEscape (E : Env) (st : St) (n : Nat) : Except Fault ((Nat × Nat) ⊕ ErrKind) :=
+  if n = 2 then pure (.inr .runeNotTerminated)
+  else do
+    let c ← srcAt E st 2
+    if isSimpleEscape c 0x27 then
+      (if n < 3 then pure (.inr .runeNotTerminated) else pure (.inl (3, 3)))
+    else if c = 0x78 then
+      if n < 5 then pure (.inr .runeNotTerminated)
+      else do
+        let h0 ← srcAt E st 3
+        if !isHexDigit h0 then pure (.inr .hexEscapeChar)
+        else
+          let h1 ← srcAt E st 4
+          if !isHexDigit h1 then pure (.inr .hexEscapeChar) else pure (.inl (5, 5))
+    else if c = 0x75 ∨ c = 0x55 then
+      let k := if c = 0x55 then 8 else 4
+      if n < k + 3 then pure (.inr .runeNotTerminated)
+      else do
+        match ← hexRun E st k 3 0 with
+        | none => pure (.inr .hexEscapeChar)
+        | some r => if badCodePoint r then pure (.inr .invalidCodePoint) else pure (.inl (k + 3, k + 3))
+    else if 0x30 ≤ c ∧ c ≤ 0x37 then
+      if n < 5 then pure (.inr .runeNotTerminated)
+      else do
+        let o0 ← srcAt E st 3
+        if o0 < 0x30 ∨ o0 > 0x37 then pure (.inr .octEscapeChar)
+        else
+          let o1 ← srcAt E st 4
+          if o1 < 0x30 ∨ o1 > 0x37 then pure (.inr .octEscapeChar)
+          else
+            let r := ((c.toNat - 0x30) * 8 + (o0.toNat - 0x30)) * 8 + (o1.toNat - 0x30)
+            if r > 255 then pure (.inr .octTooBig) else pure (.inl (5, 5))
+    else pure (.inr .unknownEscape)
+
+/-- `switch l.src[1]` of `lexRuneLiteral` -/
+def runeBody (E : Env) (st : St) (n : Nat) (c1 : UInt8) : Except Fault ((Nat × Nat) ⊕ ErrKind) :=
+  if c1 = 0x5c then runeEscape E st n
+  else if c1 = 0x0a then pure (.inr .newlineInRune)
+  else if c1 = 0x27 then pure (.inr .emptyRune)
+  else do
+    let tail ← srcFrom E st 1     -- `l.src[1:]`
+    let (r, s) := decodeRune tail
+    if r = runeError ∧ s = 1 then pure (.inr .invalidUTF8)
+    else if r = BOM then pure (.inr .bom)
+    else pure (.inl (s + 1, 2))
+
 /-- `l.lexRuneLiteral()` -/
 def lexRuneLiteral (E : Env) (st : St) : R := do
   let n := srcLen E st
   if n = 1 then fail st .runeNotTerminated
   else
     let c1 ← srcAt E st 1
-    -- `p` or an error
-    let pr : Except Fault ((Nat × Nat) ⊕ ErrKind) :=   -- (p, columns before the closing quote)
-      if c1 = 0x5c then
-        if n = 2 then pure (.inr .runeNotTerminated)
-        else do
-          let c ← srcAt E st 2
-          if isSimpleEscape c 0x27 then
-            (if n < 3 then pure (.inr .runeNotTerminated) else pure (.inl (3, 3)))
-          else if c = 0x78 then
-            if n < 5 then pure (.inr .runeNotTerminated)
-            else do
-              let h0 ← srcAt E st 3
-              if !isHexDigit h0 then pure (.inr .hexEscapeChar)
-              else
-                let h1 ← srcAt E st 4
-                if !isHexDigit h1 then pure (.inr .hexEscapeChar) else pure (.inl (5, 5))
-          else if c = 0x75 ∨ c = 0x55 then
-            let k := if c = 0x55 then 8 else 4
-            if n < k + 3 then pure (.inr .runeNotTerminated)
-            else do
-              match ← hexRun E st k 3 0 with
-              | none => pure (.inr .hexEscapeChar)
-              | some r => if badCodePoint r then pure (.inr .invalidCodePoint) else pure (.inl (k + 3, k + 3))
-          else if 0x30 ≤ c ∧ c ≤ 0x37 then
-            if n < 5 then pure (.inr .runeNotTerminated)
-            else do
-              let o0 ← srcAt E st 3
-              if o0 < 0x30 ∨ o0 > 0x37 then pure (.inr .octEscapeChar)
-              else
-                let o1 ← srcAt E st 4
-                if o1 < 0x30 ∨ o1 > 0x37 then pure (.inr .octEscapeChar)
-                else
-                  let r := ((c.toNat - 0x30) * 8 + (o0.toNat - 0x30)) * 8 + (o1.toNat - 0x30)
-                  if r > 255 then pure (.inr .octTooBig) else pure (.inl (5, 5))
-          else pure (.inr .unknownEscape)
-      else if c1 = 0x0a then pure (.inr .newlineInRune)
-      else if c1 = 0x27 then pure (.inr .emptyRune)
-      else do
-        let tail ← srcFrom E st 1     -- `l.src[1:]`
-        let (r, s) := decodeRune tail
-        if r = runeError ∧ s = 1 then pure (.inr .invalidUTF8)
-        else if r = BOM then pure (.inr .bom)
-        else pure (.inl (s + 1, 2))
-    match ← pr with
+    match ← runeBody E st n c1 with
     | .inr k => fail st k
     | .inl (p, cols) =>
       if !peekIs E st p 0x27 then fail st .runeNotTerminated
@@ -480,174 +511,182 @@ def walkCode (E : Env) : Nat → Nat → St → Except Fault St
     let st := if c = 0x0a then newline st else if isStartChar c then addCol st 1 else st
     walkCode E n (i + 1) st
 
+/-- one row of the operator table: first byte, required second and third byte (`none`: any),
+token type, length, new `endLineAsSemicolon` -/
+structure OpEntry where
+  c : UInt8
+  c1 : Option UInt8
+  c2 : Option UInt8
+  typ : Nat
+  n : Nat
+  elas : Bool
+
+/-- the operators and punctuation that `lexCode` emits without further ado, in the order the
+code tests them for each first byte (longest first) -/
+def opTable : List OpEntry := [
+  ⟨0x3d, some 0x3d, none, tokenEqual, 2, false⟩, ⟨0x3d, none, none, tokenSimpleAssignment, 1, false⟩,
+  ⟨0x2b, some 0x2b, none, tokenIncrement, 2, true⟩, ⟨0x2b, some 0x3d, none, tokenAdditionAssignment, 2, false⟩,
+  ⟨0x2b, none, none, tokenAddition, 1, false⟩,
+  ⟨0x2d, some 0x2d, none, tokenDecrement, 2, true⟩, ⟨0x2d, some 0x3d, none, tokenSubtractionAssignment, 2, false⟩,
+  ⟨0x2d, none, none, tokenSubtraction, 1, false⟩,
+  ⟨0x2a, some 0x3d, none, tokenMultiplicationAssignment, 2, false⟩, ⟨0x2a, none, none, tokenMultiplication, 1, false⟩,
+  ⟨0x26, some 0x26, none, tokenAnd, 2, false⟩, ⟨0x26, some 0x5e, some 0x3d, tokenAndNotAssignment, 3, false⟩,
+  ⟨0x26, some 0x5e, none, tokenAndNot, 2, false⟩, ⟨0x26, some 0x3d, none, tokenAndAssignment, 2, false⟩,
+  ⟨0x26, none, none, tokenAmpersand, 1, false⟩,
+  ⟨0x7c, some 0x7c, none, tokenOr, 2, false⟩, ⟨0x7c, some 0x3d, none, tokenOrAssignment, 2, false⟩,
+  ⟨0x7c, none, none, tokenVerticalBar, 1, false⟩,
+  ⟨0x21, some 0x3d, none, tokenNotEqual, 2, false⟩, ⟨0x21, none, none, tokenNot, 1, false⟩,
+  ⟨0x3c, some 0x3d, none, tokenLessOrEqual, 2, false⟩, ⟨0x3c, some 0x2d, none, tokenArrow, 2, false⟩,
+  ⟨0x3c, some 0x3c, some 0x3d, tokenLeftShiftAssignment, 3, false⟩, ⟨0x3c, some 0x3c, none, tokenLeftShift, 2, false⟩,
+  ⟨0x3c, none, none, tokenLess, 1, false⟩,
+  ⟨0x3e, some 0x3d, none, tokenGreaterOrEqual, 2, false⟩,
+  ⟨0x3e, some 0x3e, some 0x3d, tokenRightShiftAssignment, 3, false⟩, ⟨0x3e, some 0x3e, none, tokenRightShift, 2, false⟩,
+  ⟨0x3e, none, none, tokenGreater, 1, false⟩,
+  ⟨0x28, none, none, tokenLeftParenthesis, 1, false⟩, ⟨0x29, none, none, tokenRightParenthesis, 1, true⟩,
+  ⟨0x5b, none, none, tokenLeftBracket, 1, false⟩, ⟨0x5d, none, none, tokenRightBracket, 1, true⟩,
+  ⟨0x5e, some 0x3d, none, tokenXorAssignment, 2, false⟩, ⟨0x5e, none, none, tokenXor, 1, false⟩,
+  ⟨0x3a, some 0x3d, none, tokenDeclaration, 2, false⟩, ⟨0x3a, none, none, tokenColon, 1, false⟩,
+  ⟨0x2c, none, none, tokenComma, 1, false⟩, ⟨0x3b, none, none, tokenSemicolon, 1, false⟩]
+
+def OpEntry.matches (e : OpEntry) (c : UInt8) (c1 c2 : Option UInt8) : Bool :=
+  e.c == c && (e.c1.isNone || e.c1 == c1) && (e.c2.isNone || e.c2 == c2)
+
+/-- the first row of `opTable` that matches (`c` is `l.src[0]`, `c1` and `c2` the next two
+bytes if present): token type, length and the new `endLineAsSemicolon` -/
+def plainOp (c : UInt8) (c1 c2 : Option UInt8) : Option (Nat × Nat × Bool) :=
+  (opTable.find? (·.matches c c1 c2)).map fun e => (e.typ, e.n, e.elas)
+
+/-- `if endLineAsSemicolon { l.emit(tokenSemicolon, 0); endLineAsSemicolon = false }` -/
+def autoSemi (E : Env) (st : St) (loc : CodeLoc) (cond : Bool) : Except Fault (St × CodeLoc) :=
+  if cond ∧ loc.elas then do
+    let st ← emit E st tokenSemicolon 0
+    pure (st, { loc with elas := false })
+  else pure (st, loc)
+
+/-- `case '/'` of `lexCode`: comments and the division operators -/
+def codeSlash (E : Env) (st : St) (loc : CodeLoc) (c1 : Option UInt8) : Except Fault CodeOut := do
+  if c1 = some 0x2f then
+    -- line comment
+    match indexNLorBOM (srcLen E st + 1) (E.text.drop st.base) with
+    | none => pure (.brk st loc)
+    | some p =>
+      let x ← srcAt E st p
+      if x ≠ 0x0a then pure (.ret st (some (errorf st .bom)))
+      else
+        let body ← sliceOf (E.text.drop st.base) 0 p      -- `for _, c := range l.src[:p]`
+        let st := addCol st (body.countP isStartChar)
+        let st ← skip E st p
+        let (st, loc) ← autoSemi E st loc true
+        let st := newline st
+        let st ← skip E st 1
+        pure (.cont st loc)
+  else if c1 = some 0x2a then
+    -- block comment
+    let rest ← srcFrom E st 2                             -- `l.src[2:]`
+    match indexSub rest [0x2a, 0x2f] with
+    | none => pure (.ret st (some (errorf st .commentNotTerminated)))
+    | some p =>
+      let comment ← sliceOf (E.text.drop st.base) 0 (p + 4)     -- `l.src[:p+4]`
+      let nl := indexNLorBOM (comment.length + 1) comment
+      let bad ← (match nl with
+        | some i => (getAt comment i).map (· ≠ 0x0a)
+        | none => pure false : Except Fault Bool)
+      if bad then pure (.ret st (some (errorf st .bom)))
+      else
+        let (st, loc) ← autoSemi E st loc nl.isSome
+        let st ← walkCode E (p + 4) 0 st
+        let st ← skip E st (p + 4)
+        pure (.cont st loc)
+  else if c1 = some 0x3d then op E st loc tokenDivisionAssignment 2 false
+  else op E st loc tokenDivision 1 false
+
+/-- `case '%'` of `lexCode`: `%}`, `%%}` and the modulo operators -/
+def codePercent (E : Env) (endT : Nat) (st : St) (loc : CodeLoc) (c1 c2 : Option UInt8) : Except Fault CodeOut := do
+  if c1 = some 0x7d ∧ endT = tokenEndStatement then
+    -- a macro declaration with an explicit result type or a using statement with a type
+    let st := if loc.identIndex = st.totals then
+        (match formatIndex loc.identTxt with
+         | some i => { st with ctx := i }
+         | none => st)
+      else st
+    pure (.ret st none)
+  else if c1 = some 0x7d ∧ (endT = tokenRightBraces ∨ endT = tokenEndStatements) then
+    pure (.ret st (some (errorf st .unexpectedEndStmt)))
+  else if c1 = some 0x25 ∧ c2 = some 0x7d ∧ endT = tokenEndStatements then do
+    let (st, _) ← autoSemi E st loc true
+    pure (.ret st none)
+  else if c1 = some 0x25 ∧ c2 = some 0x7d ∧ (endT = tokenRightBraces ∨ endT = tokenEndStatement) then
+    pure (.ret st (some (errorf st .unexpectedEndStmts)))
+  else if c1 = some 0x3d then op E st loc tokenModuloAssignment 2 false
+  else op E st loc tokenModulo 1 false
+
+/-- `default:` of `lexCode`: keyword or identifier -/
+def codeIdent (E : Env) (endT : Nat) (st : St) (loc : CodeLoc) (c : UInt8) : Except Fault CodeOut := do
+  let sz : Except Fault (Nat ⊕ CodeOut) :=
+    if c = 0x5f ∨ (c < 0x80 ∧ E.U.isLetter c.toNat) then pure (.inl 1)
+    else
+      let (r, s) := decodeRune (E.text.drop st.base)
+      if !E.U.isLetter r then
+        if r = BOM then
+          if st.base = 0 then do
+            let st ← skip E st 3
+            pure (.inr (.cont st loc))
+          else pure (.inr (.ret st (some (errorf st .bom))))
+        else if E.U.isDigit r then pure (.inr (.ret st (some (errorf st .identDigit))))
+        else pure (.inr (.ret st (some (errorf st .invalidChar))))
+      else pure (.inl s)
+  match ← sz with
+  | .inr o => pure o
+  | .inl s =>
+    let (st, typ, txt) ← lexIdent E st s
+    let (st, loc) := if endT = tokenEndStatement then afterIdent st loc typ txt else (st, loc)
+    let elas := typ = tokenBreak ∨ typ = tokenContinue ∨ typ = tokenFallthrough ∨ typ = tokenReturn ∨
+                typ = tokenIdentifier
+    pure (.cont st { loc with elas })
+
 /-- one iteration of the loop of `lexCode`, entered with `len(l.src) > 0` -/
 def codeStep (E : Env) (endT : Nat) (st : St) (loc : CodeLoc) : Except Fault CodeOut := do
   let c ← srcAt E st 0
   let c1 := peek E st 1
   let c2 := peek E st 2
-  if c = 0x22 then lit (lexInterpretedString E st) loc
-  else if c = 0x60 then lit (lexRawString E st) loc
-  else if c = 0x27 then lit (lexRuneLiteral E st) loc
-  else if c = 0x2e then   -- '.'
-    match c1 with
-    | some d =>
-      if 0x30 ≤ d ∧ d ≤ 0x39 then lit (lexNumber E st) loc
-      else if d = 0x2e ∧ c2 = some 0x2e then op E st loc tokenEllipsis 3 false
-      else op E st loc tokenPeriod 1 false
-    | none => op E st loc tokenPeriod 1 false
-  else if 0x30 ≤ c ∧ c ≤ 0x39 then lit (lexNumber E st) loc
-  else if c = 0x3d then   -- '='
-    if c1 = some 0x3d then op E st loc tokenEqual 2 false else op E st loc tokenSimpleAssignment 1 false
-  else if c = 0x2b then   -- '+'
-    if c1 = some 0x2b then op E st loc tokenIncrement 2 true
-    else if c1 = some 0x3d then op E st loc tokenAdditionAssignment 2 false
-    else op E st loc tokenAddition 1 false
-  else if c = 0x2d then   -- '-'
-    if c1 = some 0x2d then op E st loc tokenDecrement 2 true
-    else if c1 = some 0x3d then op E st loc tokenSubtractionAssignment 2 false
-    else op E st loc tokenSubtraction 1 false
-  else if c = 0x2a then   -- '*'
-    if c1 = some 0x3d then op E st loc tokenMultiplicationAssignment 2 false
-    else op E st loc tokenMultiplication 1 false
-  else if c = 0x2f then   -- '/'
-    if c1 = some 0x2f then
-      -- line comment
-      match indexNLorBOM (srcLen E st + 1) (E.text.drop st.base) with
-      | none => pure (.brk st loc)
-      | some p =>
-        let x ← srcAt E st p
-        if x ≠ 0x0a then pure (.ret st (some (errorf st .bom)))
-        else
-          let body ← sliceOf (E.text.drop st.base) 0 p      -- `for _, c := range l.src[:p]`
-          let st := addCol st (body.countP isStartChar)
-          let st ← skip E st p
-          let (st, loc) ← (if loc.elas then do
-              let st ← emit E st tokenSemicolon 0
-              pure (st, { loc with elas := false })
-            else pure (st, loc) : Except Fault (St × CodeLoc))
-          let st := newline st
-          let st ← skip E st 1
-          pure (.cont st loc)
-    else if c1 = some 0x2a then
-      -- block comment
-      let rest ← srcFrom E st 2                             -- `l.src[2:]`
-      match indexSub rest [0x2a, 0x2f] with
-      | none => pure (.ret st (some (errorf st .commentNotTerminated)))
-      | some p =>
-        let comment ← sliceOf (E.text.drop st.base) 0 (p + 4)     -- `l.src[:p+4]`
-        let nl := indexNLorBOM (comment.length + 1) comment
-        let bad ← (match nl with
-          | some i => (getAt comment i).map (· ≠ 0x0a)
-          | none => pure false : Except Fault Bool)
-        if bad then pure (.ret st (some (errorf st .bom)))
-        else
-          let (st, loc) ← (if nl.isSome ∧ loc.elas then do
-              let st ← emit E st tokenSemicolon 0
-              pure (st, { loc with elas := false })
-            else pure (st, loc) : Except Fault (St × CodeLoc))
-          let st ← walkCode E (p + 4) 0 st
-          let st ← skip E st (p + 4)
-          pure (.cont st loc)
-    else if c1 = some 0x3d then op E st loc tokenDivisionAssignment 2 false
-    else op E st loc tokenDivision 1 false
-  else if c = 0x25 then   -- '%'
-    if c1 = some 0x7d ∧ endT = tokenEndStatement then
-      -- a macro declaration with an explicit result type or a using statement with a type
-      let st := if loc.identIndex = st.totals then
-          (match formatIndex loc.identTxt with
-           | some i => { st with ctx := i }
-           | none => st)
-        else st
-      pure (.ret st none)
-    else if c1 = some 0x7d ∧ (endT = tokenRightBraces ∨ endT = tokenEndStatements) then
-      pure (.ret st (some (errorf st .unexpectedEndStmt)))
-    else if c1 = some 0x25 ∧ c2 = some 0x7d ∧ endT = tokenEndStatements then do
-      let st ← (if loc.elas then emit E st tokenSemicolon 0 else pure st)
-      pure (.ret st none)
-    else if c1 = some 0x25 ∧ c2 = some 0x7d ∧ (endT = tokenRightBraces ∨ endT = tokenEndStatement) then
-      pure (.ret st (some (errorf st .unexpectedEndStmts)))
-    else if c1 = some 0x3d then op E st loc tokenModuloAssignment 2 false
-    else op E st loc tokenModulo 1 false
-  else if c = 0x26 then   -- '&'
-    if c1 = some 0x26 then op E st loc tokenAnd 2 false
-    else if c1 = some 0x5e then
-      (if c2 = some 0x3d then op E st loc tokenAndNotAssignment 3 false else op E st loc tokenAndNot 2 false)
-    else if c1 = some 0x3d then op E st loc tokenAndAssignment 2 false
-    else op E st loc tokenAmpersand 1 false
-  else if c = 0x7c then   -- '|'
-    if c1 = some 0x7c then op E st loc tokenOr 2 false
-    else if c1 = some 0x3d then op E st loc tokenOrAssignment 2 false
-    else op E st loc tokenVerticalBar 1 false
-  else if c = 0x21 then   -- '!'
-    if c1 = some 0x3d then op E st loc tokenNotEqual 2 false else op E st loc tokenNot 1 false
-  else if c = 0x3c then   -- '<'
-    if c1 = some 0x3d then op E st loc tokenLessOrEqual 2 false
-    else if c1 = some 0x2d then op E st loc tokenArrow 2 false
-    else if c1 = some 0x3c then
-      (if c2 = some 0x3d then op E st loc tokenLeftShiftAssignment 3 false else op E st loc tokenLeftShift 2 false)
-    else op E st loc tokenLess 1 false
-  else if c = 0x3e then   -- '>'
-    if c1 = some 0x3d then op E st loc tokenGreaterOrEqual 2 false
-    else if c1 = some 0x3e then
-      (if c2 = some 0x3d then op E st loc tokenRightShiftAssignment 3 false else op E st loc tokenRightShift 2 false)
-    else op E st loc tokenGreater 1 false
-  else if c = 0x28 then op E st loc tokenLeftParenthesis 1 false
-  else if c = 0x29 then op E st loc tokenRightParenthesis 1 true
-  else if c = 0x5b then op E st loc tokenLeftBracket 1 false
-  else if c = 0x5d then op E st loc tokenRightBracket 1 true
-  else if c = 0x7b then do   -- '{'
-    let st ← emitAdv E st tokenLeftBrace 1
-    pure (.cont st { loc with elas := false,
-                              unclosed := if endT = tokenRightBraces then loc.unclosed + 1 else loc.unclosed })
-  else if c = 0x7d then   -- '}'
-    if endT = tokenRightBraces ∧ c1 = some 0x7d ∧
-        (loc.unclosed = 0 ∨ (loc.unclosed = 1 ∧ ¬ (c2 = some 0x7d))) then
-      pure (.ret st none)
-    else do
-      let unclosed := if endT = tokenRightBraces ∧ loc.unclosed > 0 then loc.unclosed - 1 else loc.unclosed
-      let st ← emitAdv E st tokenRightBrace 1
-      pure (.cont st { loc with elas := true, unclosed })
-  else if c = 0x5e then   -- '^'
-    if c1 = some 0x3d then op E st loc tokenXorAssignment 2 false else op E st loc tokenXor 1 false
-  else if c = 0x3a then   -- ':'
-    if c1 = some 0x3d then op E st loc tokenDeclaration 2 false else op E st loc tokenColon 1 false
-  else if c = 0x2c then op E st loc tokenComma 1 false
-  else if c = 0x20 ∨ c = 0x09 ∨ c = 0x0d then do
-    let st ← skip E st 1
-    pure (.cont (addCol st 1) loc)
-  else if c = 0x0a then do
-    let (st, loc) ← (if loc.elas then do
-        let st ← emit E st tokenSemicolon 0
-        pure (st, { loc with elas := false })
-      else pure (st, loc) : Except Fault (St × CodeLoc))
-    let st := newline st
-    let st ← skip E st 1
-    pure (.cont st loc)
-  else if c = 0x3b then op E st loc tokenSemicolon 1 false
-  else if c = 0x00 then pure (.ret st (some (errorf st .nul)))
-  else
-    -- keyword or identifier
-    let sz : Except Fault (Nat ⊕ CodeOut) :=
-      if c = 0x5f ∨ (c < 0x80 ∧ E.U.isLetter c.toNat) then pure (.inl 1)
-      else
-        let (r, s) := decodeRune (E.text.drop st.base)
-        if !E.U.isLetter r then
-          if r = BOM then
-            if st.base = 0 then do
-              let st ← skip E st 3
-              pure (.inr (.cont st loc))
-            else pure (.inr (.ret st (some (errorf st .bom))))
-          else if E.U.isDigit r then pure (.inr (.ret st (some (errorf st .identDigit))))
-          else pure (.inr (.ret st (some (errorf st .invalidChar))))
-        else pure (.inl s)
-    match ← sz with
-    | .inr o => pure o
-    | .inl s =>
-      let (st, typ, txt) ← lexIdent E st s
-      let (st, loc) := if endT = tokenEndStatement then afterIdent st loc typ txt else (st, loc)
-      let elas := typ = tokenBreak ∨ typ = tokenContinue ∨ typ = tokenFallthrough ∨ typ = tokenReturn ∨
-                  typ = tokenIdentifier
-      pure (.cont st { loc with elas })
+  match plainOp c c1 c2 with
+  | some (typ, n, elas) => op E st loc typ n elas
+  | none =>
+    if c = 0x22 then lit (lexInterpretedString E st) loc
+    else if c = 0x60 then lit (lexRawString E st) loc
+    else if c = 0x27 then lit (lexRuneLiteral E st) loc
+    else if c = 0x2e then   -- '.'
+      match c1 with
+      | some d =>
+        if 0x30 ≤ d ∧ d ≤ 0x39 then lit (lexNumber E st) loc
+        else if d = 0x2e ∧ c2 = some 0x2e then op E st loc tokenEllipsis 3 false
+        else op E st loc tokenPeriod 1 false
+      | none => op E st loc tokenPeriod 1 false
+    else if 0x30 ≤ c ∧ c ≤ 0x39 then lit (lexNumber E st) loc
+    else if c = 0x2f then codeSlash E st loc c1
+    else if c = 0x25 then codePercent E endT st loc c1 c2
+    else if c = 0x7b then do   -- '{'
+      let st ← emitAdv E st tokenLeftBrace 1
+      pure (.cont st { loc with elas := false,
+                                unclosed := if endT = tokenRightBraces then loc.unclosed + 1 else loc.unclosed })
+    else if c = 0x7d then   -- '}'
+      if endT = tokenRightBraces ∧ c1 = some 0x7d ∧
+          (loc.unclosed = 0 ∨ (loc.unclosed = 1 ∧ ¬ (c2 = some 0x7d))) then
+        pure (.ret st none)
+      else do
+        let unclosed := if endT = tokenRightBraces ∧ loc.unclosed > 0 then loc.unclosed - 1 else loc.unclosed
+        let st ← emitAdv E st tokenRightBrace 1
+        pure (.cont st { loc with elas := true, unclosed })
+    else if c = 0x20 ∨ c = 0x09 ∨ c = 0x0d then do
+      let st ← skip E st 1
+      pure (.cont (addCol st 1) loc)
+    else if c = 0x0a then do
+      let (st, loc) ← autoSemi E st loc true
+      let st := newline st
+      let st ← skip E st 1
+      pure (.cont st loc)
+    else if c = 0x00 then pure (.ret st (some (errorf st .nul)))
+    else codeIdent E endT st loc c
 
 def codeLoop (E : Env) (endT : Nat) : Nat → St → CodeLoc → Except Fault CodeOut
   | 0, _, _ => .error .other
